@@ -21,10 +21,15 @@ func init() {
 	vregister("H_C03_rdt", H_C03_rdt)
 	vregister("H_C03_frame", H_C03_frame)
 	vregister("H_C03_manymounts", H_C03_manymounts)
+	vregister("H_C03_manymounts_conc", H_C03_manymounts_conc)
 }
 
 // more mounts than Go's sort treats with plain insertion sort (12): the depth of every mount is chosen by the solver,
 // the result must be the stable depth order of (initial minus replaced) + edit
+// the same with every depth a concrete case (one solver-free run per depth vector): reaches sort algorithms whose
+// control flow depends on every comparison (quicksort variants), which the merged symbolic run cannot finish
+func H_C03_manymounts_conc() { H_C03_manymounts() }
+
 func H_C03_manymounts() {
 	n := vparam("NMOUNTS")
 	o := &oci.Spec{}
@@ -33,7 +38,7 @@ func H_C03_manymounts() {
 	for i := 0; i < n; i++ {
 		d := "/m" + string(rune('a'+i))
 		deep := false
-		if i < 5 {
+		if i < vparam("NCONC") {
 			deep = nondetChoice("deep"+string(rune('a'+i)), 2) == 1 // a few concrete choices spread the work over the workers
 		} else {
 			deep = nondetBool("deep" + string(rune('a'+i)))
